@@ -497,7 +497,7 @@ Proof.
   unfold pobs_eqb in HA. rewrite !Bool.andb_true_iff in HA.
   destruct HA as [[[[[[HS HR] HE] _] _] _] _]. simpl in HS, HR, HE.
   apply (list_eqb_R V veqb R veqb_R) in HS. apply Z.eqb_eq in HR. apply Z.eqb_eq in HE.
-  unfold pull_guard in HG. rewrite !Bool.andb_true_iff in HG. destruct HG as [[[G4 _] _] GN].
+  unfold pull_guard in HG. rewrite !Bool.andb_true_iff in HG. destruct HG as [[[[_ G4] _] _] GN].
   apply Bool.negb_true_iff in GN. apply Bool.negb_true_iff in G4. apply Z.eqb_neq in G4.
   assert (Hf : p_failed st = None).
   { destruct (p_failed st) as [e|] eqn:E; [|reflexivity]. exfalso.
